@@ -3,14 +3,14 @@
 DUT: luna.gateware.usb.usb3.link.transmitter.RawPacketTransmitter (real code).  The words it gets accepted by the PHY are
   replayed (harness-side, contiguous, receivers reset before each packet) into the real RawHeaderPacketReceiver and
   DataPacketReceiver, which sit in the same harness.
-Workload: sessions of 110 packets (elaborating the three CRC-32/CRC-16 users costs far more than simulating them): data headers (60 %) with payloads of every length mod 4 (0..70 mostly, some up to 300,
+Workload: sessions of 80 packets (elaborating the three CRC-32/CRC-16 users costs far more than simulating them): data headers (60 %) with payloads of every length mod 4 (0..70 mostly, some up to 300,
   1024 in the thorough tier; zero-length = no data offered), delayed data headers (DPP must be aborted), transaction /
   link-management / isochronous-timestamp headers; all header words, sequence number, reserved bits, hub depth, delayed,
   deferred random; the header's own crc16/crc5 inputs are garbage (must be ignored).  Requests the two ways the link
   layer makes them: a `generate` strobe after which the header inputs are scrambled, or a level held until `done`; back
   to back or spaced.  Also headers of reserved types with bit 4 set (10000b, 10100b, 11100b and 11000b = DATA with bit 4:
-  none of them is a data header, nothing may follow the header), payload lengths 301..1020 (3 %) and the maximum-size
-  neighbourhood 1021..1024 (1 %), and payload streams with bubbles (30 % of multi-word payloads: the producer drops valid
+  none of them is a data header, nothing may follow the header), payload lengths 301..1020 (3.5 %) and the maximum-size
+  neighbourhood 1021..1024 (1.5 %), and payload streams with bubbles (30 % of multi-word payloads: the producer drops valid
   for 1-3 cycles between two words, other fields don't-care/hostile meanwhile).  Payload stream: words valid until accepted, garbage in the unused lanes of the last word, data
   offered before or together with the request.  PHY `ready`: always / random p / pulse every k / bursty, plus stalls of 1-6
   cycles aimed at a chosen word (start framing, each header word, DPP start, first / last payload word, CRC word, END word).
@@ -56,7 +56,7 @@ PROPERTY = "C36"
 CASES = {"quick": 16, "thorough": 160}
 # elaboration of the CRC-32 users dominates the cost; generous watchdog for a loaded machine
 TIMEOUT = {"quick": 3600, "thorough": 8 * 3600}
-RULE = ("case = session of 70 (quick) or 100 (thorough) packets (60% data headers with payload 0..300 bytes, every length mod 4; delayed data headers; "
+RULE = ("case = session of 80 packets (60% data headers with payload 0..300 bytes, every length mod 4; delayed data headers; "
         "TP/LMP/ITP headers), strobe or level requests, back to back or spaced, one PHY ready profile plus stalls aimed at chosen "
         "words; transmitted words replayed into the real header and data receivers; non-trivial = all four payload alignments, "
         ">=1 zero-length, >=1 aborted packet and stalls on CRC and END words; distinct = hash of all stimulus")
@@ -95,9 +95,9 @@ def gen_packet(rng, tier):
             n = rng.randint(1, 16)
         elif x < 0.90:
             n = rng.randint(17, 70)
-        elif x > 0.98:    # both tiers: maximum-size boundary
+        elif x > 0.985:    # both tiers: maximum-size boundary
             n = rng.choice([1024, 1023, 1022, 1021])
-        elif x > 0.94:
+        elif x > 0.95:
             n = rng.randint(301, 1020)
         else:
             n = rng.randint(71, 300)
@@ -230,7 +230,7 @@ def run_case(rng, tier, res):
 
     h = Harness()
     tx, hrx, drx = h.tx, h.hrx, h.drx
-    n_packets = 110      # 16 quick cases = one round on 16 workers: elaborating 16 CRC-32 users side by side is what costs wall time
+    n_packets = 80      # 16 quick cases = one round on 16 workers: elaborating 16 CRC-32 users side by side is what costs wall time
     plan = [gen_packet(rng, tier) for _ in range(n_packets)]
     profile = rng.choice([("always",), ("always",), ("random", 0.5), ("random", 0.8), ("random", 0.3), ("pulse", rng.randint(2, 4)),
                           ("bursty", 4, 6), ("bursty", 6, 3)])
